@@ -35,10 +35,11 @@ const (
 	ckCRCTwins
 	ckWordRuns
 	ckZeroAfter16k
+	ckFewDuplicates
 	ckKinds
 )
 
-var contentKindNames = []string{"random", "two-symbol", "repeated-slice", "zero-tail", "all-zero", "text", "crc-twins", "word-runs", "zero-after-16k"}
+var contentKindNames = []string{"random", "two-symbol", "repeated-slice", "zero-tail", "all-zero", "text", "crc-twins", "word-runs", "zero-after-16k", "few-duplicates"}
 
 // expandContent deterministically expands (kind, seed) to n bytes.
 func expandContent(kind int, seed uint64, n, sliceSize int) []byte {
@@ -76,6 +77,29 @@ func expandContent(kind int, seed uint64, n, sliceSize int) []byte {
 			o := int(g.next()%uint64(n/sliceSize)) * sliceSize
 			for i := o; i < o+sliceSize && i < n; i++ {
 				b[i] = byte(g.next())
+			}
+		}
+	case ckFewDuplicates:
+		// mostly distinct slices; a few slices repeat an earlier slice or
+		// are zero-filled (sparse regions, repeated records)
+		for i := 0; i < n; i += 8 {
+			v := g.next()
+			for k := 0; k < 8 && i+k < n; k++ {
+				b[i+k] = byte(v >> (8 * uint(k)))
+			}
+		}
+		k := n / sliceSize
+		if k >= 2 {
+			for c := 0; c < 1+k/4; c++ {
+				dst := 1 + int(g.next()%uint64(k-1))
+				src := int(g.next() % uint64(dst))
+				if g.next()%3 == 0 {
+					// two zero-filled slices
+					for i := 0; i < sliceSize; i++ {
+						b[src*sliceSize+i] = 0
+					}
+				}
+				copy(b[dst*sliceSize:(dst+1)*sliceSize], b[src*sliceSize:(src+1)*sliceSize])
 			}
 		}
 	case ckZeroTail:
@@ -413,7 +437,7 @@ func GenWorld(r *Run, o GenOpts) *World {
 		total += size
 		kind := ckRandom
 		if !o.RandomOnly {
-			kind = t.Pick([]int{16, 4, 4, 4, 2, 2, 4, 3, 0}, "content")
+			kind = t.Pick([]int{16, 4, 4, 4, 2, 2, 4, 3, 0, 4}, "content")
 			if !o.Par1 && w.S >= 64 && w.S <= 8192 && t.Bool(1, 30, "zero-after-16k") {
 				// the zero tail stays within the slice that contains byte 16384
 				kind = ckZeroAfter16k
